@@ -18,7 +18,13 @@ type radRec struct {
 	typ types.Type
 }
 
+type fileObj struct {
+	name   string
+	closed bool
+}
+
 type acctEnv struct {
+	handles    map[*Value]*fileObj
 	files      map[string]Value
 	dirs       map[string]bool
 	radLog     []radRec
@@ -124,6 +130,83 @@ func init() {
 		delete(in.acct().files, name)
 		in.acct().fsOps++
 		return Iface{}
+	}
+	// open files: a handle follows its file through a rename; writing to a closed handle fails
+	s["os.OpenFile"] = func(in *Interp, fr *frame, a []Value) Value {
+		name := in.strArg(a[0], "OpenFile")
+		ae := in.acct()
+		if _, ok := ae.files[name]; !ok {
+			ae.files[name] = in.mkSliceConst(nil)
+		}
+		T := fr.fn.Signature.Results().At(0).Type().(*types.Pointer).Elem()
+		var cell Value = in.zero(T)
+		p := &cell
+		if ae.handles == nil {
+			ae.handles = map[*Value]*fileObj{}
+		}
+		ae.handles[p] = &fileObj{name: name}
+		return Tuple{p, Iface{}}
+	}
+	s["(*os.File).Write"] = func(in *Interp, fr *frame, a []Value) Value {
+		ae := in.acct()
+		p, _ := a[0].(*Value)
+		h := ae.handles[p]
+		if h == nil {
+			panic(unsupported("write to an os.File the engine did not open (stdout?)"))
+		}
+		d := a[1].(SliceV)
+		n := int(in.concretize(d.N, "File.Write length"))
+		if h.closed {
+			return Tuple{in.k64(0), in.mkError("file already closed")}
+		}
+		in.crashPoint("append " + baseName(h.name))
+		old := ae.files[h.name].(SliceV)
+		on := int(in.concretize(old.N, "file length"))
+		arr := make([]Value, 0, on+n)
+		for i := 0; i < on; i++ {
+			arr = append(arr, old.Arr[i])
+		}
+		for i := 0; i < n; i++ {
+			arr = append(arr, in.sel(d.Arr, in.tc.Bin(OpAdd, d.Off, in.k64(int64(i)))))
+		}
+		ae.files[h.name] = in.mkSliceConst(arr)
+		return Tuple{in.k64(int64(n)), Iface{}}
+	}
+	s["(*os.File).Close"] = func(in *Interp, fr *frame, a []Value) Value {
+		p, _ := a[0].(*Value)
+		if h := in.acct().handles[p]; h != nil {
+			if h.closed {
+				return in.mkError("file already closed")
+			}
+			h.closed = true
+		}
+		return Iface{}
+	}
+	s["(*os.File).Sync"] = func(in *Interp, fr *frame, a []Value) Value { return Iface{} }
+	s["os.Rename"] = func(in *Interp, fr *frame, a []Value) Value {
+		from, to := in.strArg(a[0], "Rename"), in.strArg(a[1], "Rename")
+		ae := in.acct()
+		d, ok := ae.files[from]
+		if !ok {
+			return notExist(in)
+		}
+		in.crashPoint("rename " + baseName(from))
+		delete(ae.files, from)
+		ae.files[to] = d
+		for _, h := range ae.handles {
+			if h.name == from {
+				h.name = to
+			} else if h.name == to {
+				h.name = "<unlinked>"
+			}
+		}
+		return Iface{}
+	}
+	h["vFSRead"] = func(in *Interp, fr *frame, a []Value) Value {
+		if d, ok := in.acct().files[in.strArg(a[0], "vFSRead")]; ok {
+			return d
+		}
+		return SliceV{}
 	}
 	s["os.IsNotExist"] = func(in *Interp, fr *frame, a []Value) Value {
 		if itf, ok := a[0].(Iface); ok {
